@@ -10,6 +10,7 @@ import CoCoVerif.Model.Disk
 import CoCoVerif.Spec.DiskBasic
 import CoCoVerif.Model.Program
 import CoCoVerif.Spec.MC6809
+import CoCoVerif.Model.VirtualFile
 
 open Lean CoCo
 
@@ -160,8 +161,57 @@ def operandJson : Operand → List (String × Json)
   | .pair s t => [("mode", "pair"), ("src", natJ s), ("dst", natJ t)]
   | .list m => [("mode", "list"), ("mask", natJ m)]
 
+/-- content of a host file for a reply: hex for small files, digest + FAT + directory for disk-sized ones -/
+def contentJson (b : List Nat) : Json :=
+  if b.length ≥ 100000 then
+    Json.mkObj [("len", natJ b.length), ("hash", natJ (hash64 b)), ("fat", Json.str (toHex ((b.drop 78592).take 256))),
+      ("dir", Json.str (toHex ((b.drop 78848).take 2304)))]
+  else Json.mkObj [("len", natJ b.length), ("hex", Json.str (toHex b))]
+
+def fsOfJson (j : Json) : VF.FS :=
+  match j.getObjVal? "fs" with
+  | .ok (.obj kvs) => kvs.toList.map (fun (k, v) => (k.toList, imgOfJson v))
+  | _ => []
+
+def fsJson (fs : VF.FS) : Json :=
+  Json.mkObj (fs.map (fun (p, b) => (String.ofList p, contentJson b)))
+
+def kindOfStr (s : String) : Option VF.Kind :=
+  if s == "cassette" then some .cassette else if s == "binary" then some .binary else if s == "disk" then some .disk else none
+def kindStr : VF.Kind → String | .cassette => "cassette" | .binary => "binary" | .disk => "disk"
+
+def optPath (j : Json) (k : String) : Option (List Char) :=
+  match j.getObjVal? k with
+  | .ok (.str s) => some s.toList
+  | _ => none
+
 def handle (j : Json) : List (String × Json) :=
   match getStr j "op" with
+  | "vf.sniff" =>
+    outcomeJson (VF.sniff (imgOfJson j)) (fun (fs, k) =>
+      [("kind", Json.str (kindStr k)), ("files", Json.arr (fs.map cfileToJson).toArray)])
+  | "vf.store" =>
+    let fs := fsOfJson j
+    let files := (getArr j "files").toList.map cfileOfJson
+    match kindOfStr (getStr j "kind") with
+    | none => [("k", "bad-kind")]
+    | some k => outcomeJson (VF.storeTo fs (getStr j "path").toList k files (getBool j "append")) (fun fs' => [("fs", fsJson fs')])
+  | "cli.asm" =>
+    let args := (j.getObjVal? "args").toOption.getD Json.null
+    let a : VF.AsmArgs := { toBin := optPath args "to_bin", toCas := optPath args "to_cas", toDsk := optPath args "to_dsk",
+                            name := optPath args "name", append := getBool args "append" }
+    let lines := (getArr j "lines").toList.map (fun x => ((x.getStr?).toOption.getD "").toList)
+    let r := VF.asmMain (fsOfJson j) [] lines a
+    [("exit", natJ r.exit), ("fs", fsJson r.fs), ("refused", Json.arr (r.refused.map (fun k => Json.str (kindStr k))).toArray)]
+  | "cli.util" =>
+    let args := (j.getObjVal? "args").toOption.getD Json.null
+    let sel : Option (List (List Char)) := match args.getObjVal? "files" with
+      | .ok (.arr a) => some (a.toList.map (fun x => ((x.getStr?).toOption.getD "").toList))
+      | _ => none
+    let a : VF.UtilArgs := { host := (getStr args "host").toList, toBin := optPath args "to_bin", toCas := optPath args "to_cas",
+                             toDsk := optPath args "to_dsk", files := sel, append := getBool args "append" }
+    let r := VF.utilMain (fsOfJson j) a
+    [("exit", natJ r.exit), ("fs", fsJson r.fs)]
   | "spec.decode" =>
     match Spec.MC6809.decode (ofHex (getStr j "hex")) with
     | some (i, n) => [("ok", Json.bool true), ("n", natJ n), ("opn", Json.str i.op)] ++ operandJson i.operand
@@ -211,10 +261,10 @@ def handle (j : Json) : List (String × Json) :=
     let fs := (getArr j "files").toList.map cfileOfJson
     [("k", "ok"), ("buf", toHex (Cas.write fs))]
   | "cas.list" =>
-    outcomeJson (Cas.list (ofHex (getStr j "buf")))
+    outcomeJson (Cas.list (imgOfJson j))
       (fun fs => [("files", Json.arr (fs.map cfileToJson).toArray)])
   | "spec.tape" =>
-    match Spec.Tape.parse (ofHex (getStr j "buf")) with
+    match Spec.Tape.parse (imgOfJson j) with
     | some fs => [("ok", true), ("files", Json.arr (fs.map tapeFileToJson).toArray)]
     | none => [("ok", false)]
   | op => [("k", "bad-op"), ("what", op)]
